@@ -13,6 +13,7 @@
 -/
 import KatdalModel.Model.Concat
 import KatdalModel.Lemmas.ConcatList
+import KatdalModel.Lemmas.ConcatTail
 import KatdalModel.Lemmas.CatPartition
 open Np Index Concat LazyIx
 
@@ -144,6 +145,34 @@ theorem c19_index_across_parts (lens : List Nat) (hlens : lens ≠ []) (ix : Ix)
   | slice a b c => exact fun h => concatHead_slice lens hlens a b c h
   | mask m => exact fun h => concatHead_mask lens m h
   | list l => exact fun h => concatHead_list lens l h.1 h.2
+
+/-- **Indexing across part boundaries returns the same as indexing the concatenated arrays, whole
+    request**: visibilities, flags and weights of the combined data set are concatenated lazy
+    indexers over the parts' arrays; for every supported head (time) index, every non-empty list of
+    parts and every frequency / product key given as non-empty position lists, the request answers
+    what the same key answers on the concatenation of the parts' arrays under outer indexing - same
+    error, or same shape and the same element at every in-bounds coordinate.  (Shared with C05:
+    `LazyIx.concatFull_eq_spec`.) -/
+theorem c19_getitem_across_parts {α} [Inhabited α] (parts : List (NDArr α)) (hparts : parts ≠ [])
+    (tailShape : List Nat) (ix : Ix) (tails : List (List Nat))
+    (hG : match ix with
+      | .int i => -(total (partLens parts) : Int) ≤ i ∧ i < total (partLens parts)
+      | .slice _ _ c => c.getD 1 > 0
+      | .mask m => m.length = total (partLens parts)
+      | .list l => l.Pairwise (· < ·) ∧ ∀ v ∈ l, 0 ≤ v ∧ v < total (partLens parts))
+    (hne : ∀ t ∈ tails, t ≠ []) :
+    match concatFullSpec parts tailShape ix tails with
+    | .error e => concatFull parts ix tails = .error e
+    | .ok s => ∃ r, concatFull parts ix tails = .ok r ∧ r.shape = s.shape ∧
+        ∀ js, Index.inBounds s.shape js → r.get js = s.get js :=
+  concatFull_eq_spec parts tailShape ix tails
+    (c19_index_across_parts _ (partLens_ne_nil parts hparts) ix hG) hne
+
+-- three parts (the middle one empty) with a frequency axis: rows 1 and 3 of the combined array, channels 2 and 0
+example : (match concatFull [⟨[2, 3], fun js => js.foldl (· * 10 + ·) 1⟩, ⟨[0, 3], fun _ => 0⟩,
+      ⟨[2, 3], fun js => js.foldl (· * 10 + ·) 3⟩] (.slice (some 1) none (some 2)) [[2, 0]] with
+    | .ok r => (r.shape, [r.get [0, 0], r.get [0, 1], r.get [1, 0], r.get [1, 1]])
+    | .error _ => ([], [])) = ([2, 2], [112, 110, 312, 310]) := by decide
 
 section sensors
 open Categorical
